@@ -50,7 +50,8 @@ ORDER = {
     'locals': {'gathered': 'List[Layer]', 'seen': 'Dict[Layer,int]', 'result': 'List[Layer]'},
     'ensures': [
         "distinct(result)",                                                      # once each
-        "forall(x, Layer, iff(x in result, x in old(layers)))",                   # same set
+        "forall(v, Int, implies(0 <= v and v < len(result), result[v] in old(layers)))",   # same set: nothing invented
+        "forall(x, Layer, implies(x in old(layers), x in result))",               #           nothing lost
         "bases_first(result)",                                                   # never before one of its bases
     ],
     'loops': {
@@ -59,13 +60,13 @@ ORDER = {
             "forall(j, Int, x, Layer, implies(0 <= j and j < _i and isanc(x, layers[j]), exists(p, Int, 0 <= p and p < len(gathered) and gathered[p] == x)))",
             "forall(p, Int, a, Layer, implies(0 <= p and p < len(gathered) and panc(a, gathered[p]),"
             " exists(q, Int, p < q and q < len(gathered) and gathered[q] == a)))",
+            "object not in layers",
         ],
         '#loop2': [
             "forall(x, Layer, iff(x in seen, exists(u, Int, 0 <= u and u < _i and gathered[u] == x)))",
-            "forall(v, Int, implies(0 <= v and v < len(result), result[v] in layers and"
-            " exists(u, Int, 0 <= u and u < _i and gathered[u] == result[v])))",
+            "forall(v, Int, implies(0 <= v and v < len(result), result[v] in setof(layers) and result[v] in seen))",
             "distinct(result)",
-            "forall(u, Int, implies(0 <= u and u < _i and gathered[u] in layers,"
+            "forall(u, Int, implies(0 <= u and u < _i and gathered[u] in setof(layers),"
             " exists(v, Int, 0 <= v and v < len(result) and result[v] == gathered[u])))",
             "bases_first(result)",
         ],
